@@ -34,3 +34,122 @@ Proof. vm_compute. reflexivity. Qed.
 Example format12_key_ffffffff_refuted :
   M_decode12 false (M_encode12 [(4294967295, 1)] 0) = Err.
 Proof. vm_compute. reflexivity. Qed.
+
+(* ------------------------------------------------------------------ *)
+(* format 4                                                           *)
+From C09 Require Import Model4 ModelT.
+
+(* a map with a delta run, a gap, unrelated glyph ids, a glyph id wrapping
+   past 65535 and code 0xFFFF mapped *)
+Definition ex4 : amap :=
+  [(32, 1); (33, 2); (34, 3); (35, 4); (36, 5); (40, 900); (41, 17); (42, 5000); (43, 3);
+   (100, 65535); (101, 0); (102, 1); (65535, 77)].
+Definition m4 : N -> N := lookup ex4.
+
+(* hypothesis "glyph ids are 16 bit" *)
+Example ex4_gid16 : forallb (fun p => snd p <? 65536) ex4 = true.
+Proof. vm_compute. reflexivity. Qed.
+
+(* a path: always follow the first / always the last proposed edge *)
+Fixpoint walk (pick : list seg4 -> option seg4) (fuel : nat) (v : N) : list seg4 :=
+  match fuel with
+  | O => []
+  | S f => match pick (M_edges m4 v) with
+           | None => []
+           | Some s => s :: walk pick f (M_edge_to s)
+           end
+  end.
+Definition first_edge (l : list seg4) := match l with [] => None | s :: _ => Some s end.
+Definition last_edge (l : list seg4) := match rev l with [] => None | s :: _ => Some s end.
+Definition ex4_path_a := walk first_edge 40 0.
+Definition ex4_path_b := walk last_edge 40 0.
+
+Example ex4_paths_differ : ex4_path_a <> ex4_path_b /\ existsb s_vals ex4_path_b = true.
+Proof. split; [vm_compute; discriminate|vm_compute; reflexivity]. Qed.
+
+(* hypotheses of format4_any_path_correct hold for both *)
+Example ex4_path_hyps :
+  path_ok m4 0 ex4_path_a = true /\ path_ok m4 0 ex4_path_b = true /\
+  (emit4_size m4 ex4_path_a <=? 65535) = true /\ (emit4_size m4 ex4_path_b <=? 65535) = true.
+Proof. vm_compute. repeat split; reflexivity. Qed.
+
+(* and the conclusion, evaluated: the specification lookup on the emitted
+   bytes gives the map on all 65536 codes *)
+Definition all_codes_ok (segs : list seg4) : bool :=
+  match M_emit4 m4 segs 0 with
+  | Ok b => N.eqb (N.peano_rect (fun _ => N) 0
+                     (fun c bad => match S_lookup4 b c with
+                                   | Some g => if g =? m4 c then bad else bad + 1
+                                   | None => bad + 1 end) 65536) 0
+  | _ => false
+  end.
+Example ex4_lookup_all : all_codes_ok ex4_path_a = true /\ all_codes_ok ex4_path_b = true.
+Proof. vm_compute. split; reflexivity. Qed.
+
+(* the library's decoder on the emitted bytes returns the non-zero entries *)
+Example ex4_decode :
+  match M_emit4 m4 ex4_path_b 0 with
+  | Ok b => M_decode4 (fun c => c) b = Ok (filter (fun p => negb (snd p =? 0)) ex4)
+  | _ => False
+  end.
+Proof. vm_compute. reflexivity. Qed.
+
+(* the repaired decoder adds idDelta to glyphIdArray values (before
+   fixes/C09-format4-iddelta-with-rangeoffset.diff it returned 65 -> 10) *)
+Definition ex4_iddelta : list N :=
+  [0;4; 0;36; 0;0; 0;4; 0;4; 0;1; 0;0;  0;66; 255;255;  0;0;  0;65; 255;255;  0;5; 0;1;  0;4; 0;0;  0;10; 0;0].
+Example ex4_iddelta_decode :
+  M_decode4 (fun c => c) ex4_iddelta = Ok [(65, 15)] /\
+  S_lookup4 ex4_iddelta 65 = Some 15 /\ S_lookup4 ex4_iddelta 66 = Some 0.
+Proof. vm_compute. repeat split; reflexivity. Qed.
+
+(* the tolerated invalid last segment: specification undefined, decoder 0 *)
+Definition ex4_badlast : list N :=
+  [0;4; 0;24; 0;0; 0;2; 0;2; 0;0; 0;0;  255;255;  0;0;  255;255;  0;0;  255;254].
+Example ex4_badlast_decode :
+  M_decode4 (fun c => c) ex4_badlast = Ok [] /\ S_lookup4 ex4_badlast 65535 = None.
+Proof. vm_compute. split; reflexivity. Qed.
+
+(* Outside the quantifier (DESIGN 5.C): 8191 isolated codes need 8192
+   segments = 65552 bytes; Encode does not panic and the 16-bit Length field
+   silently holds 16.  The theorem's hypothesis emit4_size <= 65535 is exactly
+   what excludes this. *)
+Definition m_big (c : N) : N :=
+  if (c mod 8 =? 0) && (c <? 65528) then (c / 8 * 7 + 1) mod 65536 else 0.
+Fixpoint walk_big (fuel : nat) (v : N) : list seg4 :=
+  match fuel with
+  | O => []
+  | S f => match M_edges m_big v with
+           | [] => []
+           | s :: _ => s :: walk_big f (M_edge_to s)
+           end
+  end.
+Definition big_segs : list seg4 := walk_big (N.to_nat 9000) 0.
+Definition on_ok {A} (o : outcome A) (f : A -> bool) : bool :=
+  match o with Ok a => f a | _ => false end.
+Definition big_check : bool :=
+  path_ok m_big 0 big_segs && (emit4_size m_big big_segs =? 65552) &&
+  on_ok (M_emit4 m_big big_segs 0)
+        (fun b => (N.of_nat (length b) =? 65552) &&
+                  match word_at b 2 with Some l => l =? 16 | None => false end).
+Example format4_length_wraps_beyond_64k : big_check = true.
+Proof. vm_cast_no_check (eq_refl true). Qed.
+
+(* ------------------------------------------------------------------ *)
+(* table level                                                        *)
+
+Definition ex_f6 : list N := [0;6; 0;12; 0;0; 0;65; 0;1; 0;9].
+Definition ex_table : list N :=
+  [0;0; 0;2;  0;0; 0;3; 0;0;0;20;  0;3; 0;1; 0;0;0;20] ++ ex_f6.
+Example ex_table_decode :
+  M_decode_table ex_table = Ok [((0, 3, 0), (20, 12)); ((3, 1, 0), (20, 12))].
+Proof. vm_compute. reflexivity. Qed.
+Example ex_table_best :
+  match M_decode_table_bytes ex_table with
+  | Ok t => M_getbest (fun c => c) t = Ok (2, SubMap [(65, 9)])
+  | _ => False
+  end.
+Proof. vm_compute. reflexivity. Qed.
+Example ex_table_encode :
+  M_encode_table [((0, 3, 0), ex_f6); ((3, 1, 0), ex_f6)] = Ok ex_table.
+Proof. vm_compute. reflexivity. Qed.
